@@ -218,8 +218,12 @@ func extremePacket(r *Rng, i int) *mpkt {
 	m := genPacket(r)
 	m.attrs = nil
 	switch i % 4 {
-	case 0: // 258..300 maximal attributes: beyond 65535 bytes, refused
-		for j, n := 0, 258+r.Intn(43); j < n; j++ {
+	case 0: // 258..300 maximal attributes: beyond 65535 bytes, refused (258..273 of them wrap a 16-bit size below 4096)
+		n := 258 + (i/4*5)%16
+		if i%8 == 4 {
+			n = 274 + r.Intn(27)
+		}
+		for j := 0; j < n; j++ {
 			m.attrs = append(m.attrs, aop{0, 1 + r.Intn(3), r.Bytes(253)})
 		}
 	case 1: // thousands of attributes that are not encoded, around a few that are
@@ -294,7 +298,7 @@ func init() {
 			m := genPacket(r)
 			if i < 25 {
 				m = exactPacket(r, 4094+i%5) // the boundary itself: 4094..4098 bytes
-			} else if i < 25+c.N(4, 48) {
+			} else if i < 25+c.N(8, 48) {
 				m = extremePacket(r, i)
 			}
 			t, w := implBytesRes(func() ([]byte, error) { return m.packet().MarshalBinary() })
